@@ -188,3 +188,82 @@ func VerifH_C02_MaxLengthName() {
 	m.Answers = append(m.Answers, a)
 	vRoundTrip(m)
 }
+
+// VerifH_C02_AdditionalOrder: the additional section keeps its records in order, wherever an OPT record sits among
+// them (first, middle, last, absent), with and without a size limit that everything fits into. Pack may also not
+// shuffle the message it was given.
+func VerifH_C02_AdditionalOrder() {
+	verifrt.Unwind(60)
+	m := NewMsg()
+	m.Header = Header{Response: true}
+	q := NewQuestion()
+	q.Name, q.Type, q.Class = vName("q.name", vShapes[1]), TypeA, 1
+	m.Questions = append(m.Questions, q)
+	types := []Type{Type(65280), Type(65281), Type(65282)}
+	optAt := verifrt.Choose("opt.position", 4) // 3 = no OPT
+	if optAt < 3 {
+		types[optAt] = TypeOPT
+	}
+	for i, t := range types {
+		r := NewRaw()
+		r.Type, r.Class, r.TTL = t, Class(1200+i), uint32(i)
+		r.Data = pool.GetBuf(1)
+		r.Data[0] = byte(0x70 + i)
+		m.Additionals = append(m.Additionals, r)
+	}
+	size := []int{0, 4096, 65535}[verifrt.Choose("size", 3)]
+	b := pool.GetBuf(m.Len())
+	n, err := m.Pack(b, verifrt.Bool("compression"), size)
+	verifrt.Assert(err == nil, "packs")
+	verifrt.Reach("packed")
+	m2 := NewMsg()
+	verifrt.Assert(m2.Unpack(b[:n]) == nil, "decodes")
+	verifrt.Assert(len(m2.Additionals) == 3 && len(m.Additionals) == 3, "all three additional records are there")
+	for i := range types {
+		h2, h1 := m2.Additionals[i].Hdr(), m.Additionals[i].Hdr()
+		if size == 0 {
+			verifrt.Assert(h2.Type == types[i] && h2.TTL == uint32(i), "without a size limit the wire keeps the records in the order given")
+			verifrt.Assert(h1.Type == types[i], "and the caller's message is not reordered")
+		}
+	}
+	// (with a size limit the OPT is reserved first and written last, and the pop that does so may move other additional
+	// records; C09 only fixes the order of answers and authorities, so nothing is demanded of the order here)
+	n3 := 0
+	for _, rr := range m2.Additionals {
+		if rr.Hdr().Type != TypeOPT {
+			verifrt.Assert(rr.Hdr().Class == Class(1200+int(rr.Hdr().TTL)) && rr.(*RawResource).Data[0] == byte(0x70+int(rr.Hdr().TTL)), "each record is intact")
+			n3++
+		}
+	}
+	verifrt.Assert(n3 == 3-verifrt.Ite(optAt < 3, 1, 0), "every non-OPT additional record is present once")
+}
+
+// VerifH_C20_FailedPackLeavesNoTrace: a compressed Pack that FAILS part-way (buffer too small) must not leave anything
+// of its message behind in the pooled compression table: the next Pack – of a message sharing names with the failed
+// one, after the failed one was released and its buffers recycled – still round-trips, and no stale unsafe-string
+// key of a released name is ever read.
+func VerifH_C20_FailedPackLeavesNoTrace() {
+	verifrt.Unwind(80)
+	mk := func(tag string) *Msg {
+		m := NewMsg()
+		m.Header = Header{Response: true}
+		q := NewQuestion()
+		q.Name, q.Type, q.Class = vName(tag+".q", vShapes[3]), TypeA, 1
+		m.Questions = append(m.Questions, q)
+		a := NewA()
+		a.ResourceHdr = ResourceHdr{Name: vName(tag+".a", vShapes[3]), Type: TypeA, Class: 1, TTL: 9}
+		m.Answers = append(m.Answers, a)
+		return m
+	}
+	m1 := mk("m1")
+	small := pool.GetBuf(12 + verifrt.Choose("room", 20)) // header + part of the records
+	_, err := m1.Pack(small, true, 0)
+	verifrt.Assert(err != nil, "the first message does not fit")
+	verifrt.Reach("first-failed")
+	ReleaseMsg(m1)
+	pool.ReleaseBuf(small)
+	scratch := pool.GetBuf(4) // the released name buffers are handed out again and overwritten
+	scratch[0], scratch[1], scratch[2], scratch[3] = 0xEE, 0xEE, 0xEE, 0xEE
+	m2 := mk("m2")
+	vRoundTrip(m2)
+}
